@@ -87,7 +87,21 @@ fn dup_kind(rows: &[Vec<RVal>]) -> String {
 }
 
 fn seq_case(tables: &Tables, si: usize, lines: &[&str], case: J, rank: u64, layer: &str) -> (Vec<Failure>, bool) {
-    let d = stmts()[si];
+    seq_case_text(tables, stmts()[si], lines, case, rank, layer)
+}
+
+const NAN_DEF: &str = "CREATE TABLE r(line = '^k=([a-z]+) x=([^ ]+)$', line[1] => k TEXT, line[2] => x REAL);";
+const NAN_LINES: [&str; 7] = ["k=a x=NaN", "k=a x=nan", "k=b x=NaN", "k=a x=1.5", "k=a x=inf", "k=b x=-inf", "k=a x=-NaN"];
+const NAN_STMTS: [&str; 6] = ["SELECT DISTINCT x FROM r", "SELECT DISTINCT k, x FROM r", "SELECT DISTINCT x - x FROM r", "SELECT DISTINCT x, k FROM r WHERE k = 'a'", "SELECT DISTINCT MAX(x) FROM r GROUP BY k", "SELECT DISTINCT MIN(x), COUNT(*) FROM r GROUP BY k"];
+
+/// REAL values that are not numbers (regex table: NaN in three spellings, infinities; `inf - inf`): all line sequences
+fn nan_case(si: usize, seq: &[u8]) -> (Vec<Failure>, bool) {
+    let tables = sut::make_tables(NAN_DEF).unwrap();
+    let lines: Vec<&str> = seq.iter().map(|i| NAN_LINES[*i as usize]).collect();
+    seq_case_text(&tables, NAN_STMTS[si], &lines, json!({"layer": "nan", "stmt": si, "statement": NAN_STMTS[si], "seq": seq, "lines": lines}), seq.len() as u64, "nan")
+}
+
+fn seq_case_text(tables: &Tables, d: &str, lines: &[&str], case: J, rank: u64, layer: &str) -> (Vec<Failure>, bool) {
     let dst = sut::parse(d).unwrap();
     let pst = sut::parse(&no_distinct(d)).unwrap();
     let plain = sut::run_batch(tables, &pst, lines);
@@ -347,6 +361,25 @@ pub fn run(ctx: &Ctx) -> i32 {
         });
         col.layer("DISTINCT over joins (joined file with repeated rows)", done, complete, json!({"statements": JOIN_STMTS, "max_len": jmax}));
     }
+    // NaN / infinities
+    {
+        let k = NAN_LINES.len() as u64;
+        let ml = ctx.tier.pick(4u32, 5u32);
+        let total = seq_count(k, ml) * NAN_STMTS.len() as u64;
+        let (done, complete) = par_for_budget(ctx, total, 64, |idx| {
+            let si = (idx % NAN_STMTS.len() as u64) as usize;
+            let seq = seq_decode(idx / NAN_STMTS.len() as u64, k, ml);
+            let (fs, nt) = nan_case(si, &seq);
+            col.eval(1);
+            if nt {
+                col.nontrivial(h64(&("nan", si, &seq)));
+            }
+            for f in fs {
+                col.fail(f);
+            }
+        });
+        col.layer("REAL values that are not numbers (NaN spellings, infinities, inf - inf)", done, complete, json!({"lines": NAN_LINES, "statements": NAN_STMTS, "max_len": ml}));
+    }
     // many distinct rows: 12 000 different values, then every one of them again (nothing a bounded memory may forget)
     {
         let n = 12_000usize;
@@ -399,6 +432,10 @@ pub fn run(ctx: &Ctx) -> i32 {
 }
 
 pub fn replay(case: &J) -> Vec<Failure> {
+    if case["layer"].as_str() == Some("nan") {
+        let seq: Vec<u8> = case["seq"].as_array().unwrap().iter().map(|x| x.as_u64().unwrap() as u8).collect();
+        return nan_case(case["stmt"].as_u64().unwrap() as usize, &seq).0;
+    }
     let tables = sut::make_tables(DEF).unwrap();
     let al = alpha();
     match case["layer"].as_str() {
